@@ -213,6 +213,55 @@ func mutateIllFormed(rng *rand.Rand, rt *rmodel.Route, prior []*rmodel.Route) (o
 	}
 }
 
+// genDeepBinds: routes that share a prefix carrying two to four bind names and then fork into sibling
+// bind segments with tails that draw from the same small name pool - so that "a bind name is reused
+// along one route" has to be decided deep below forks, where per-node bookkeeping of the names
+// collected so far is shared between siblings.
+func genDeepBinds(rng *rand.Rand, c *regCase, flame bool) {
+	names := []string{"org", "repo", "kind", "number", "name", "id", "ref", "tag"}
+	rng.Shuffle(len(names), func(i, j int) { names[i], names[j] = names[j], names[i] })
+	ph := func(n string) rmodel.Segment { return rmodel.Segment{Elems: []rmodel.Elem{{Bind: n}}} }
+	lit := func(s string) rmodel.Segment { return rmodel.Segment{Elems: []rmodel.Elem{{Lit: s}}} }
+	var prefix []rmodel.Segment
+	used := 0
+	for used < 2+rng.Intn(3) {
+		switch rng.Intn(5) {
+		case 0:
+			prefix = append(prefix, lit([]string{"api", "v1", "r"}[rng.Intn(3)]))
+		case 1:
+			if used+2 <= 4 {
+				prefix = append(prefix, rmodel.Segment{Elems: []rmodel.Elem{{Bind: names[used]}, {Lit: "-"}, {Bind: names[used+1]}}})
+				used += 2
+				break
+			}
+			fallthrough
+		default:
+			prefix = append(prefix, ph(names[used]))
+			used++
+		}
+	}
+	for k := 3 + rng.Intn(6); k > 0; k-- {
+		rt := &rmodel.Route{Segs: append([]rmodel.Segment{}, prefix...)}
+		// the fork: a bind segment with a name of its own (sometimes one already used: must be refused)
+		rt.Segs = append(rt.Segs, ph(names[used+rng.Intn(len(names)-used)]))
+		if rng.Intn(8) == 0 {
+			rt.Segs[len(rt.Segs)-1] = ph(names[rng.Intn(len(names))])
+		}
+		for t := 1 + rng.Intn(3); t > 0; t-- {
+			if rng.Intn(2) == 0 {
+				rt.Segs = append(rt.Segs, lit([]string{"view", "raw", "comments", "labels", "x"}[rng.Intn(5)]))
+			} else {
+				rt.Segs = append(rt.Segs, ph(names[rng.Intn(len(names))]))
+			}
+		}
+		st := regStep{Intent: "deep binds", Route: core.B(rt.Render())}
+		if flame {
+			st.Method = []string{"GET", "GET", "PATCH", "*"}[rng.Intn(4)]
+		}
+		c.Steps = append(c.Steps, st)
+	}
+}
+
 func genRegCase(rng *rand.Rand) *regCase {
 	c := &regCase{Level: "tree", Mode: "restart"}
 	if rng.Intn(2) == 0 {
@@ -221,6 +270,10 @@ func genRegCase(rng *rand.Rand) *regCase {
 	flame := rng.Intn(10) < 3
 	if flame {
 		c.Level = "flame"
+	}
+	if rng.Intn(8) == 0 {
+		genDeepBinds(rng, c, flame)
+		return c
 	}
 	cfg := gen.Cfg{AllowRoot: true}
 	pool := gen.GenPool(rng, cfg)
